@@ -247,9 +247,31 @@ func c13IdxProved(p *fw.Program, env *fw.IntervalEnv, fn *ssa.Function, ins ssa.
 		}
 		return false
 	}
-	nonNeg := func(v ssa.Value) bool {
+	var nonNegD func(v ssa.Value, depth int) bool
+	nonNeg := func(v ssa.Value) bool { return nonNegD(v, 0) }
+	nonNegD = func(v ssa.Value, depth int) bool {
 		if c, ok := v.(*ssa.Const); ok && c.Value != nil {
 			return c.Int64() >= 0
+		}
+		// v >= w (dominating test, e.g. the condition of a loop counting down to w) with w >= 0
+		if depth < 3 {
+			for _, g := range fw.Guards(b) {
+				g = g.Normalize()
+				bo, ok := g.Cond.(*ssa.BinOp)
+				if !ok {
+					continue
+				}
+				var w ssa.Value
+				switch {
+				case bo.X == v && (g.True && (bo.Op == token.GEQ || bo.Op == token.GTR) || !g.True && (bo.Op == token.LSS || bo.Op == token.LEQ)):
+					w = bo.Y
+				case bo.Y == v && (g.True && (bo.Op == token.LEQ || bo.Op == token.LSS) || !g.True && (bo.Op == token.GTR || bo.Op == token.GEQ)):
+					w = bo.X
+				}
+				if w != nil && isIntT(w.Type()) && !isUnsignedT(v.Type()) && nonNegD(w, depth+1) {
+					return true
+				}
+			}
 		}
 		if isUnsignedT(v.Type()) {
 			return true
@@ -640,6 +662,17 @@ func c13PhiEdgeProves(env *fw.IntervalEnv, fn *ssa.Function, b *ssa.BasicBlock, 
 		if c, isC := q.P.IsConst(); isC {
 			ok = rel == fw.LT && c < 0 || rel == fw.LE && c <= 0
 		}
+		if !ok && c13DependsOn(phi.Edges[k], phi, 0) {
+			// back edge: the next value is computed from the current one, for which the bound is the induction
+			// hypothesis (i < len(x) now, so i-1 < len(x) next; len(x) as the engine models it, by access path)
+			// (both sides over one fresh name for the current value, independent of memoised phi spellings)
+			ph := fw.NewPolyEnv(fn)
+			ph.Subst = map[ssa.Value]*fw.Poly{phi: fw.PAtom("<current " + phi.Name() + ">")}
+			hyp := fw.Cmp{P: ph.Of(v).Sub(l), Rel: rel}
+			pn := fw.NewPolyEnv(fn)
+			pn.Subst = map[ssa.Value]*fw.Poly{phi: ph.Of(phi.Edges[k])}
+			ok = hyp.Implies(fw.Cmp{P: pn.Of(v).Sub(l), Rel: rel})
+		}
 		if !ok {
 			qs := fw.Cmp{P: fw.StripVersions(q.P), Rel: q.Rel}
 			for _, f := range c13EdgeFacts(env, pred, h) {
@@ -654,6 +687,22 @@ func c13PhiEdgeProves(env *fw.IntervalEnv, fn *ssa.Function, b *ssa.BasicBlock, 
 		}
 	}
 	return len(h.Preds) > 0
+}
+
+// c13DependsOn: v is computed (through integer arithmetic and conversions) from phi.
+func c13DependsOn(v ssa.Value, phi *ssa.Phi, depth int) bool {
+	if depth > 5 {
+		return false
+	}
+	switch x := v.(type) {
+	case *ssa.Phi:
+		return x == phi
+	case *ssa.BinOp:
+		return c13DependsOn(x.X, phi, depth+1) || c13DependsOn(x.Y, phi, depth+1)
+	case *ssa.Convert:
+		return c13DependsOn(x.X, phi, depth+1)
+	}
+	return false
 }
 
 // c13ProtocolLen: fn is the JQValueIndex / JQValueSlice method of a type whose JQValueSliceLen method
@@ -813,8 +862,6 @@ var c13IdxExceptions = map[string]string{
 	"(*internal/colorjson.Encoder).encodeMap|index|make(len(arg0))[phi]?upper":                                                                                          "i counts the iterations of the range over the very map whose len sized the slice: i < len(vs) in every iteration",
 	"(*internal/colorjson.Encoder).writeIndentInternal|slice|(*bytes.Buffer).Bytes(recv.w)[((*bytes.Buffer).Len(recv.w)-phi)]?lower":                                    "encoding/json's indent doubling: l <= n and l <= number of bytes already written (at least len(spaces) were just written); n is the nesting depth, not a jq number",
 	"(*internal/colorjson.Encoder).writeIndentInternal|slice|(*bytes.Buffer).Bytes(recv.w)[((*bytes.Buffer).Len(recv.w)-phi)]?upper":                                    "encoding/json's indent doubling: l <= n and l <= number of bytes already written (at least len(spaces) were just written); n is the nesting depth, not a jq number",
-	"(*internal/ctxstack.Stack).Push$1|index|captured<*internal/ctxstack.Stack>.cancelFns[phi]?lower":                                                                   "i runs from len(cancelFns)-1 down to stackIdx, stackIdx = len(cancelFns) at push time >= 0; the stack is fq's own (interrupt contexts), no jq value reaches it",
-	"(*internal/ctxstack.Stack).Push$1|index|captured<*internal/ctxstack.Stack>.cancelFns[phi]?upper":                                                                   "i runs from len(cancelFns)-1 down to stackIdx, stackIdx = len(cancelFns) at push time >= 0; the stack is fq's own (interrupt contexts), no jq value reaches it",
 	"(internal/recoverfn.Raw).frames|index|make(len(recv.PCs))[phi]?upper":                                                                                              "i counts the frames runtime.CallersFrames yields for r.PCs: at most len(r.PCs) (one frame per PC unless inlined frames are expanded, which only the decode-error path formats; C06's territory)",
 	"(internal/recoverfn.Raw).frames|slice|make(len(recv.PCs))[arg0:phi]?upper":                                                                                         "startSkip 3 / bottomSkip 1 relative to the recover frames fq itself put on the stack (Frames()); formatting of a recovered decode panic, C06's territory, no jq operand",
 	"(internal/recoverfn.Raw).frames|slice|make(len(recv.PCs))[arg0:phi]?order":                                                                                         "startSkip 3 / bottomSkip 1 relative to the recover frames fq itself put on the stack (Frames()); formatting of a recovered decode panic, C06's territory, no jq operand",
